@@ -115,6 +115,16 @@ SPECS = [dict(rust="src/geom3/plane3.rs", gen="Plane3", model="Model.Frames", fn
     "Plane3_inverted_normal": "forall (N : EG.Num.Num.Num) (s : @Plane3 N), (let r := @{G}.Plane3_inverted_normal N s in @mkPlane N (Plane3_normal r) (Plane3_d r)) = @{M}.plane_inverted N %s" % _PL,
 })]
 
+# geom3/iso3.rs: the six try_from_basis_* constructors (thresholds, cross-product order, which axis is recomputed); the final
+# from_bases(e0, e1, e2, origin) - nalgebra's matrix-to-quaternion conversion - is mapped to the triple of axes, which is what the
+# model's theorems speak about and what the correspondence compares
+_FR = "(option ((num * num * num) * (num * num * num) * (num * num * num))%type)"
+SPECS.append(dict(rust="src/geom3/iso3.rs", gen="Iso3", model="Model.Frames", types="Model.Types Model.Frames", fns=[],
+                  trait_impls=["IsoExtensions3"], call_map={"from_bases": "(Some ({0}, {1}, {2}))"}, type_map={"Result<Iso3>": _FR},
+                  stmts={"Iso3_try_from_basis_%s" % k:
+                         "forall (N : EG.Num.Num.Num) a b o, @{G}.Iso3_try_from_basis_%s N a b o = @{M}.basis_%s N a b" % (k, k)
+                         for k in ("xy", "xz", "yz", "yx", "zx", "zy")}))
+
 
 def translate():
     return C.translator_tie(SPECS)
